@@ -76,7 +76,9 @@ def run_tlc(module, cfg, workdir=None, workers=16, simulate=None, depth=None, se
         shutil.copy(fn, wd)
     md = os.path.join(wd, "md-%d" % random.getrandbits(32))
     out = os.path.join(wd, "out-%s-%d.txt" % (os.path.basename(cfg), random.getrandbits(32)))
-    jopts = ["-XX:+UseParallelGC", "-Xss64m"]
+    jtmp = os.path.join(wd, "jtmp")   # TLC unpacks its standard modules into java.io.tmpdir and leaves them there
+    os.makedirs(jtmp, exist_ok=True)
+    jopts = ["-XX:+UseParallelGC", "-Xss64m", "-Djava.io.tmpdir=" + jtmp]
     if heap:
         jopts.append("-Xmx" + heap)
     if dfs:
@@ -113,6 +115,7 @@ def run_tlc(module, cfg, workdir=None, workers=16, simulate=None, depth=None, se
     r.wall = time.time() - t0
     r.outfile = out
     shutil.rmtree(md, ignore_errors=True)
+    shutil.rmtree(jtmp, ignore_errors=True)
     if rc == -9:
         r.error = "timeout after %ds" % timeout
         return r
